@@ -281,16 +281,20 @@ func run(r *vt.Run, t vt.TB, s spec) {
 			pos := 0
 			seen := map[string]bool{}
 			for _, x := range cat.PKIndex.Cols {
-				if seen[strings.ToLower(x.Name)] {
-					continue
-				}
-				seen[strings.ToLower(x.Name)] = true
-				for i, c := range cat.Columns {
-					if strings.EqualFold(c.Name, x.Name) {
-						wantOrder[i] = pos
+				// (a key may hold a column twice, under two collations: the
+				// record then stores it twice; the first copy is as good as any)
+				if !seen[strings.ToLower(x.Name)] {
+					seen[strings.ToLower(x.Name)] = true
+					for i, c := range cat.Columns {
+						if strings.EqualFold(c.Name, x.Name) {
+							wantOrder[i] = pos
+						}
 					}
 				}
 				pos++
+			}
+			if len(order) > len(wantOrder) {
+				order = order[:len(wantOrder)] // one entry per column is what the callers use
 			}
 			if fmt.Sprint(order) != fmt.Sprint(wantOrder) {
 				fail("store-order-differs", "column store order %v, SQLite %v", order, wantOrder)
